@@ -115,6 +115,28 @@ def main():
         tot_exec += res["evaluations"]
     except vlib.EngineError as e:
         rep.engine_errors.append(str(e))
+    # free-running pass over the C16 tier-2 scenarios: the real proxy (Start, runSession, datachannelHandler, webRTCConn,
+    # copyLoop) with real pion clients
+    try:
+        import proxy_t2_common
+        eb = proxy_t2_common.build(race=True)
+        work = os.path.dirname(eb)
+        for f in glob.glob(os.path.join(work, "race-c16t2.*")):
+            os.remove(f)
+        t0 = time.time()
+        res = enumlib.run(eb, "TestVerifEnumC16T2", tier, 150 if q else 600, nshards=12,
+                          env_extra={"GORACE": "halt_on_error=0 exitcode=0 history_size=3 log_path=%s/race-c16t2" % work}, accept_test_failure=True)
+        viol, honly, mx, eng = racelib.collect(work, "c16t2", pattern="race-%s.*")
+        harness_only += honly
+        for k, v in mx.items():
+            mixed[k] = mixed.get(k, 0) + v
+        for sig, text in sorted(viol.items()):
+            rep.finding(sig, text.split("\n")[0], {"harness": "TestVerifEnumC16T2 (free-running, real proxy and pion)", "kind": "race detector report", "report": text})
+        passes.append({"label": "real proxy with real pion clients (C16 tier-2 scenarios), free-running under the race detector",
+                       "executions": res["evaluations"], "transitions": 0, "exhaustive": False, "races_in_snowflake_code": sorted(viol), "wall_s": round(time.time() - t0, 1)})
+        tot_exec += res["evaluations"]
+    except vlib.EngineError as e:
+        rep.engine_errors.append(str(e))
     rep.coverage.update({
         "states": max(1, tot_exec), "transitions": max(1, tot_trans), "traces_validated_against_impl": tot_exec,
         "samples": passes[:3] or [{"note": "no pass ran"}], "passes": passes, "exhaustive": exh,
